@@ -26,8 +26,12 @@ TEXTS = {
         text="Proved about an ownership-tracked re-statement of Spec.Step and of Spec.Walk's loop body (Model/Own.v: every top-level "
              "bindings map tagged Caller or Fresh, every in-place write of the Go code logged): erasing the tags gives exactly the "
              "model step/walk_stride (C06_tracked_*_is_the_model); for every action/guard behaviour - failing, rejecting, error with or "
-             "without a partial result, native actions handing back the map they were given - no logged write changes the contents of "
-             "the caller's map and every state of the returned stride holds a fresh map (C06_*_leaves_caller_intact). On the Go side "
+             "without a partial result, native actions that hand back the map they were given or delete and overwrite bindings in it in place "
+             "(FuncAction.Exec runs the action on a copy: repair D54; no hypothesis about the action is left) - no logged write, the "
+             "action's own included, changes the contents of the caller's map and every state of the returned stride holds a fresh map "
+             "(C06_*_leaves_caller_intact, C06_action_may_mutate_its_argument, C06_exec_returns_a_fresh_map); the wiring before the "
+             "repair is refuted with a witness (C06_old_wiring_refuted). On the Go side native actions of the generated specifications "
+             "work in place on the given map, "
              "every Step and Walk is run twice with deep snapshots of state, messages, branch patterns, control and props, map-identity "
              "probes between the input and every returned State.Bs, and result comparison.",
         note=ENGINE_NOTE + " Partial: the provenance tags are assigned by hand from the Copy()/Extend() calls in core/step.go and "
